@@ -64,6 +64,12 @@ def _cases_core(rng, tier):
         txt = body[:cut] + "x" * (ln - len(unicodedata.normalize("NFKD", body[:cut]).encode()))
         pairs.append((txt, "TREZOR"))
         pairs.append((MN[0], txt[: max(0, len(txt) - 8)]))       # salt "mnemonic"+p has byte length ≈ ln
+    # texts on which NFKD is not the concatenation of the normal forms of their characters (canonical reordering across
+    # a character boundary; common.nfkd_boundary_texts), as passphrase and inside the sentence
+    for tx in common.nfkd_boundary_texts(rng, 14 if tier == "quick" else 300):
+        pairs.append((MN[0], tx))
+        if rng.random() < 0.4:
+            pairs.append(("abandon " + tx, ""))
     for m, p in pairs:
         yield "seed %s %s %s %s" % (sx(m), sx(nf(m)), sx(p), sx(nf(p))), "seed"
         t = rng.choice("01")
